@@ -38,6 +38,8 @@ def build_q(spec):
     return qkeras.quantized_relu(bits=spec["bits"], integer=spec["int"])
   if t == "po2":
     return qkeras.quantized_po2(bits=spec["bits"], max_value=spec.get("mv"))
+  if t == "rpo2":
+    return qkeras.quantized_relu_po2(bits=spec["bits"], max_value=spec.get("mv"))
   if t == "bin":
     return qkeras.binary(alpha=1)
   if t == "ter":
@@ -86,7 +88,7 @@ def po2_exponents(spec):
   """Exponent interval of quantized_po2 as its docstring / constructor define
   it: one sign bit for the value; the exponent sign bit is dropped when
   max_value <= 1; exponents are additionally capped by max_value."""
-  nsb = spec["bits"] - 1
+  nsb = spec["bits"] - (0 if spec["t"] == "rpo2" else 1)   # relu_po2: no sign bit
   mv = spec.get("mv")
   need = 1 if (mv is None or mv > 1) else 0
   eff = nsb - need
@@ -132,7 +134,7 @@ def lattice_values(spec, shape, mode, rs):
     if len(shape) == 4 and shape[-1] == 1:      # depthwise: channel axis is -2
       mag = 2.0 ** rs.randint(-3, 3, size=(shape[-2], 1))
     v = (v * top * mag).reshape(-1)
-  elif t == "po2":
+  elif t in ("po2", "rpo2"):
     emin, emax = po2_exponents(spec)
     if mode == "random":
       e = rs.randint(emin, emax + 1, size=n)
@@ -149,6 +151,8 @@ def lattice_values(spec, shape, mode, rs):
       s = np.where(rs.randint(0, 2, size=n) == 1, 1.0, -1.0)
     if mode == "random":
       e[rs.randint(0, n)] = emin             # make sure the smallest code occurs
+    if t == "rpo2":
+      s = np.ones(n)                          # unsigned: positive powers of two
     v = s * np.ldexp(1.0, e.astype(np.int64))
   elif t == "bin":
     if mode in ("random", "signed_max", "lsb"):
@@ -273,12 +277,12 @@ def build_stack(case):
   return model, shapes
 
 
-def set_stack_weights(model, case, shapes):
+def set_stack_weights(model, case, shapes, reseed=0):
   """Stored weights = on-lattice values (auto_po2: raw floats)."""
   for i, l in enumerate(case["layers"]):
     if l["k"] not in COMPUTE:
       continue
-    rs = np.random.RandomState(l["wseed"])
+    rs = np.random.RandomState(l["wseed"] + reseed)
     ks = kernel_shape(l, shapes[i])
     w = [lattice_values(l["kq"], ks, l["wmode"], rs)]
     if l["bias"]:
@@ -317,7 +321,16 @@ def st_kernel_q(st, wide=False):
                 st.integers(3, 5),
                 st.sampled_from([None, None, 2.0, 4.0, 1.0, 0.5, 3.0, 6.0, 1.5])),
       st.builds(lambda b: {"t": "po2", "bits": b, "mv": None}, st.integers(3, 5)),
-      st.just({"t": "bin"}), st.just({"t": "ter"}))
+      st.just({"t": "bin"}), st.just({"t": "ter"}),
+      # unsigned kernels
+      st.one_of(
+          st.builds(lambda b, i: {"t": "qb", "bits": b, "int": min(i, b), "sym": 0,
+                                  "kn": 0, "alpha": 1.0},
+                    st.integers(2, 5), st.integers(0, 2)),
+          st.builds(lambda b, i: {"t": "relu", "bits": b, "int": min(i, b)},
+                    st.integers(2, 5), st.integers(0, 2)),
+          st.builds(lambda b: {"t": "rpo2", "bits": b, "mv": None},
+                    st.integers(2, 3))))
 
 
 def st_bias_q(st):
